@@ -66,6 +66,10 @@ func emit(lg *zerolog.Logger, kind string, t, i int) {
 		lg.Error().Int("t", t).Array("a", zerolog.Arr().Err(errObj{t}).Object(&obj{i}).Err(fmt.Errorf("p%d", i)).Dict(zerolog.Dict().Array("in", zerolog.Arr().Int(i)))).
 			Errs("es", []error{errObj{i}, nil, fmt.Errorf("q%d", t)}).EmbedObject(&obj{t + 10}).Err(errObj{t + 20}).
 			Func(func(e *zerolog.Event) { e.Dict("fd", zerolog.Dict().Int("f", i)) }).Interface("if", map[string]int{"t": t}).Stringer("st", nil).Msg("scratch")
+	case "stackerr": // an error with the stack flag set on the event (a stack marshaler is installed process-wide)
+		lg.Error().Stack().Err(fmt.Errorf("se%d", i)).Int("t", t).Msg("stackerr")
+	case "err": // an error WITHOUT the stack flag: no stack field, whatever the pooled event carried before
+		lg.Error().Err(fmt.Errorf("pe%d", i)).Dict("d", zerolog.Dict().Err(fmt.Errorf("de%d", t))).Int("t", t).Msg("err")
 	case "drop": // discarded by discardHook (loggers without it write it)
 		lg.Info().Int("t", t).Int("i", i).Msg("drop")
 	case "fields":
@@ -363,6 +367,8 @@ func plans(tier string) []drv.Plan {
 	add("shared/plain/marsh,nested;nested", b2)
 	add("children/plain/marsh;marsh,nested", b2)
 	add("shared/plain/scratch;scratch", 3)
+	add("shared/plain/stackerr,err;err", b2)
+	add("children/plain/stackerr;err,stackerr", b2)
 	add("hooked/plain/scratch,tiny;nested", 3)
 	add("discarding/plain/drop,tiny;tiny,drop", b2)
 	add("discarding/plain/drop;drop;nested", 3)
@@ -388,6 +394,11 @@ func plans(tier string) []drv.Plan {
 		add("shared/plain/nested;tiny", 8)
 	}
 	return ps
+}
+
+func init() {
+	// makes the events' stack flag observable (kinds stackerr / err)
+	zerolog.ErrorStackMarshaler = func(err error) interface{} { return "STK:" + err.Error() }
 }
 
 func main() {
